@@ -2,6 +2,7 @@ package main
 
 import (
 	"fmt"
+	"google.golang.org/protobuf/proto"
 	"math/rand"
 	"strings"
 
@@ -17,10 +18,46 @@ func init() { register("C10", "exploration", runC10) }
 // roundTrip checks one tree: format -> parse -> normal form equal, group-by
 // equal, and the re-formatted text is a fixed point of parse∘format.
 func roundTrip(t *oracle.Expr, gb []string) string {
-	q := &pb.Query{Expr: t.ToProto(), GroupBy: gb}
+	return roundTripProto(&pb.Query{Expr: t.ToProto(), GroupBy: gb}, t, gb)
+}
+
+// toProtoShared converts like Expr.ToProto, but an *oracle.Expr that occurs at several places of the tree becomes ONE
+// protobuf node referenced from all of them (a filter kept in a variable and used twice).
+func toProtoShared(e *oracle.Expr, memo map[*oracle.Expr]*pb.Query_Expression) *pb.Query_Expression {
+	if p, ok := memo[e]; ok {
+		return p
+	}
+	var p *pb.Query_Expression
+	switch e.Op {
+	case '=':
+		p = e.ToProto()
+	case '^':
+		p = &pb.Query_Expression{Value: &pb.Query_Expression_Not_{Not: &pb.Query_Expression_Not{Expr: toProtoShared(e.Kids[0], memo)}}}
+	case '&':
+		x := &pb.Query_Expression_And{}
+		for _, k := range e.Kids {
+			x.Exprs = append(x.Exprs, toProtoShared(k, memo))
+		}
+		p = &pb.Query_Expression{Value: &pb.Query_Expression_And_{And: x}}
+	default:
+		x := &pb.Query_Expression_Or{}
+		for _, k := range e.Kids {
+			x.Exprs = append(x.Exprs, toProtoShared(k, memo))
+		}
+		p = &pb.Query_Expression{Value: &pb.Query_Expression_Or_{Or: x}}
+	}
+	memo[e] = p
+	return p
+}
+
+func roundTripProto(q *pb.Query, t *oracle.Expr, gb []string) string {
 	var s1 string
+	before := proto.Clone(q)
 	if p, msg, _ := vf.Try(func() { s1 = queryparser.QueryToString(q) }); p {
 		return "QueryToString panicked: " + msg
+	}
+	if !proto.Equal(before, q) {
+		return fmt.Sprintf("QueryToString changed the query it was given: before %s, after %s", head(queryparser.QueryToString(before.(*pb.Query)), 600), head(queryparser.QueryToString(q), 600))
 	}
 	var q1 *pb.Query
 	var err error
@@ -397,6 +434,25 @@ func runC10(r *vf.Run) {
 			}
 		}
 		r.Count("doubled_character_values", 1)
+	}
+	// (round 8) trees in which one node OBJECT occurs at several places (a leaf or a sub-tree kept in a variable)
+	{
+		a, b, c := oracle.Eq("a", "1"), oracle.Eq("b", `x"y`), oracle.PhEq("c", 2)
+		s := oracle.And(a, b)
+		n := oracle.Not(c)
+		for i, t := range []*oracle.Expr{oracle.Or(a, a), oracle.And(a, oracle.Or(b, a)), oracle.And(a, oracle.Not(a)), oracle.Or(s, oracle.Not(s)), oracle.And(s, s, c), oracle.Or(n, oracle.And(n, a), n),
+			oracle.And(oracle.Or(s, c), oracle.Or(s, c)), oracle.Not(oracle.Not(oracle.And(a, oracle.Not(oracle.Or(a, b, a)))))} {
+			tid := fmt.Sprintf("shared-node/%d", i)
+			if !r.Want(tid) {
+				continue
+			}
+			r.Eval(1)
+			q := &pb.Query{Expr: toProtoShared(t, map[*oracle.Expr]*pb.Query_Expression{}), GroupBy: []string{"a"}}
+			if d := roundTripProto(q, t, []string{"a"}); d != "" {
+				r.Violation(tid, "roundtrip", map[string]any{"tree": t.String(), "problem": head(d, 800), "note": "one node object occurs at several places of the tree"})
+			}
+			r.Count("trees_with_shared_node_objects", 1)
+		}
 	}
 	for _, c := range []string{"OR under AND", "AND under OR", "AND/OR under NOT", "NOT under NOT", "single-operand wrapper as operand", "single-operand wrapper at the root", "same operator nested"} {
 		r.Floor("context seen: "+c, r.HasCover("contexts", c))
